@@ -87,7 +87,16 @@ class TrackObs(Observer):
             p = reg.coolant_params
             de = (reg._rr_equiv.bundle_params['de']
                   if reg._rr_equiv is not None else reg._params['de'])
-            cF = p['ff'] * dz * rho * p['vel'] ** 2 / 2 / de
+            ff = p['ff']
+            if reg._rr_equiv is None:
+                # a plain channel: in laminar flow the friction factor is
+                # 64 / Re (Hagen-Poiseuille), computed here from the flow,
+                # the flow area and the hydraulic diameter
+                re_ = (reg.flow_rate * de / reg.coolant.viscosity
+                       / reg.total_area['coolant_int'])
+                if re_ < 2000.0:
+                    ff = 64.0 / re_
+            cF = ff * dz * rho * p['vel'] ** 2 / 2 / de
         # gravity as requested in the input, not as the region believes
         cG = rho * 9.80665 * dz if self.gravity else 0.0
         self.F[ai] += dF
